@@ -30,6 +30,7 @@ pub struct Sys {
     pub rp_on: bool,
     pub t0: i64,
     _rt: tokio::runtime::Runtime,
+    #[allow(dead_code)]
     scratch: Scratch,
 }
 
@@ -91,6 +92,7 @@ fn err_kind(e: &Error) -> String {
     d[..end].to_string()
 }
 
+#[allow(dead_code)]
 impl Sys {
     pub fn new(id: &str, cfg: &HashMap<String, String>) -> Self {
         let scratch = Scratch::new("system");
@@ -171,12 +173,24 @@ impl Sys {
         scratch
     }
 
+    /// Is any task due or running right now?
+    pub fn tasks_busy(&self) -> bool {
+        let now_ms = std::time::SystemTime::now().duration_since(std::time::UNIX_EPOCH).unwrap().as_millis();
+        for (k, _) in self.kv_all("tasks") {
+            let Some((scope, key)) = k.split_once('/') else { continue };
+            let Some((ts, _)) = key.split_once('-') else { continue };
+            let ts: u128 = ts.parse().unwrap_or(0);
+            if scope == "running" || ts <= now_ms { return true; }
+        }
+        false
+    }
+
     pub fn drain(&self) {
         let (_tx, rx) = mpsc::channel();
         krill::server::scheduler::verif_run(SlowKrillRuntime::new(self.krill.runtime().clone()), rx);
     }
 
-    fn run_op(&mut self, w: &[&str]) -> Result<String, Error> {
+    pub fn run_op(&self, w: &[&str]) -> Result<String, Error> {
         let krill = &self.krill;
         let rt = krill.runtime();
         let cm = krill.ca_manager();
@@ -265,6 +279,28 @@ impl Sys {
                 Ok("ok".into())
             }
             ["pump0"] => Ok("ok".into()),
+            // drain, then make every pending task due once (tasks re-queued "later" after a
+            // failure, start-up refreshes) and drain again: "background work has caught up"
+            ["pumpall"] => {
+                self.drain();
+                for _ in 0..2 {
+                    let ns = Ident::boxed_from_string("tasks".to_string()).unwrap();
+                    let kv = self.krill.storage().open(&ns).map_err(|e| Error::custom(e.to_string()))?;
+                    let scope = Ident::make("pending");
+                    let mut tasks = vec![];
+                    for k in kv.keys(Some(scope), "").unwrap_or_default() {
+                        let v: Option<Value> = kv.get(Some(scope), &k).unwrap_or(None);
+                        if let Some(v) = v {
+                            if let Ok(t) = serde_json::from_value::<Task>(v) { tasks.push(t); }
+                        }
+                    }
+                    for t in tasks {
+                        self.krill.tasks().schedule(t, krill::server::mq::now())?;
+                    }
+                    self.drain();
+                }
+                Ok("ok".into())
+            }
             ["roa", ca, rest @ ..] => {
                 let mut added = vec![];
                 let mut removed = vec![];
